@@ -372,11 +372,20 @@ def gen_tree(rng):
         if d1 in dirs:
             continue
         dirs.append(d1)
+        if rng.random() < 0.35:
+            # sibling whose name extends this one as a STRING (Live / Live 1999): path-prefix tests must work on components
+            sib = [d1[0] + rng.choice([' 1999', '2', '_b', 'er', ' (live)'])]
+            if sib not in dirs:
+                dirs.append(sib)
         for _ in range(rng.randrange(0, 3)):
             d2 = d1 + [gen_name(rng, 2)]
             if d2 in dirs:
                 continue
             dirs.append(d2)
+            if rng.random() < 0.4:
+                sib = d1 + [d2[-1] + rng.choice([' 1999', '2', '_b', 'er'])]
+                if sib not in dirs:
+                    dirs.append(sib)
             if rng.random() < 0.4:
                 d3 = d2 + [gen_name(rng, 1)]
                 if d3 not in dirs:
@@ -457,6 +466,18 @@ def gen_history(rng, tier):
     clock = [100]
 
     def checkpoint(settled=False):
+        if disk and rng.random() < 0.3:
+            # the same term text used plain / excluded and then as a wildcard (and the other way round) on one manager
+            tgt = list(rng.choice(sorted(disk)))
+            ws = [w for c in tgt for w in re.split(r'[\W_]', c) if w] or ['a']
+            w = rng.choice(ws)
+            w = w[-rng.randrange(1, len(w) + 1):].lower()
+            other = rng.choice(ws)
+            pair = [rng.choice([w, other + ' -' + w, '-' + w + ' ' + other]), rng.choice(['*' + w, other + ' *' + w])]
+            if rng.random() < 0.4:
+                pair.reverse()
+            for qs in pair:
+                steps.append(['query', qs, '', [], [], 100])
         for _ in range(rng.choice([1, 2, 2, 3])):
             fr = rng.sample(USERS, rng.randrange(0, 3))
             target = list(rng.choice(sorted(disk))) if disk and rng.random() < 0.8 else None
@@ -480,9 +501,11 @@ def gen_history(rng, tier):
             if rng.random() < 0.7:
                 steps.append(['scan', d])
         shared += order
-        if rng.random() < 0.6:
+        if rng.random() < 0.7:
             scan_all()
-        checkpoint()
+            checkpoint(settled=True)
+        else:
+            checkpoint()
         for d in rng.choice([[c3], [b], [c3, b], [b, c3], [a]]):
             steps.append(['remove', d])
             shared.remove(d)
@@ -559,7 +582,7 @@ def gen_history(rng, tier):
             if shared and rng.random() < 0.7:
                 steps.append(['scan', rng.choice(shared)])
         checkpoint()
-    if shared and rng.random() < 0.5:
+    if shared and rng.random() < 0.8:
         scan_all()
         checkpoint(settled=True)
     return {'files': files, 'steps': steps}
@@ -752,7 +775,7 @@ def run(run: Run):
                 'include / -exclude / *wildcard, punctuation inside terms, word prefixes/suffixes, junk terms; max_results 1..100; 3 users x friend sets); '
                 'distinct = distinct (tree, history); non-trivial = at least one query with a non-empty result and at least one directory holding items')
     run.trusted += ['character classes outside the generated table (harness alphabet: printable ASCII, tab, 22 accented letters, 2 Cyrillic, 5 CJK) are not modelled',
-                    'garbage collection is assumed to run after every operation (the harness forces it); F27 shows what happens in between',
+                    'garbage collection: the repaired code no longer depends on it (remove/load rebuild the term map); the harness still forces a collection after every operation and replays the F27 witness without one',
                     'os.walk / os.path / mtime of the real file system are used as given (symlinks, unreadable files, ProcessPool executors not explored)',
                     'CPython re engine: compared with the hand matcher term_occurs on every term/path pair of the run (not proved)']
     run.assumptions += ['file and directory names contain no path separator, newline or character outside the table',
@@ -783,7 +806,7 @@ def run(run: Run):
     except Exception as e:
         run.add_broken('gc-probe', f'{type(e).__name__}: {e}')
 
-    nhist = int(os.environ.get("VERIF_C07_N", 0)) or (110 if run.tier == "quick" else 600)   # env override: development aid for mutant runs
+    nhist = int(os.environ.get("VERIF_C07_N", 0)) or (80 if run.tier == "quick" else 400)   # env override: development aid for mutant runs
     cases = []
     pairs_paths, pairs_terms = {}, {}
     new_keys = {}
@@ -900,6 +923,7 @@ def replay(rep) -> int:
         wit = wit['history']
     if 'term' in wit:
         from aioslsk.shares.utils import create_term_pattern
+        create_term_pattern(wit['term'], wildcard=False)      # the run asks for the plain pattern of a term before the wildcard one
         m = bool(create_term_pattern(wit['term'], wildcard=wit['wildcard']).search(wit['path']))
         print('regex:', m, 'property text:', _contains(wit['path'], wit['term'], wit['wildcard']))
         return 1 if m != _contains(wit['path'], wit['term'], wit['wildcard']) else 0
